@@ -34,7 +34,7 @@ func vfSameShardKeys(m *shardedMap, n int) []string {
 }
 
 // VerifC28Locks: two owners run every sequence of Lock / DualLock / Unlock calls over
-// two (thorough: three) keys of one shard (single keys and a two-key set), with the clock advanced by a
+// two keys of one shard (single keys and a two-key set), with the clock advanced by a
 // solver-chosen amount between calls (TTL 100 ms) and shard capacity 1, 2 or 1000. After
 // every call: a key is never granted to an owner while the other certainly holds it
 // unexpired; a holder that certainly still holds its key is confirmed by IsLocked and the
@@ -69,9 +69,6 @@ func vfLockSequences(takeover bool) {
 		}
 	}
 	sets := [][]int{{0}, {1}, {0, 1}}
-	if zzvf.Thorough() {
-		sets = append(sets, []int{2})
-	}
 	holds := map[int]vfHold{}
 	const ttl = 100 * time.Millisecond
 	zzvf.ClockSymbolic(-1)
@@ -87,14 +84,11 @@ func vfLockSequences(takeover bool) {
 		steps += 2
 	}
 	for s := 0; s < steps; s++ {
-		// quick tier: Lock, Unlock, advance; thorough adds DualLock
 		op := 0
 		if s < prefix {
 			op = []int{0, 3, 0}[s]
-		} else if zzvf.Thorough() {
-			op = zzvf.Choose("op", 4)
 		} else {
-			op = []int{0, 2, 3}[zzvf.Choose("op", 3)]
+			op = zzvf.Choose("op", 4) // Lock, DualLock, Unlock, advance
 		}
 		if op == 3 {
 			d := zzvf.Int64("advanceMs")
